@@ -11,6 +11,7 @@ import (
 	"fmt"
 	"io"
 	"net"
+	"sort"
 )
 
 // VerifServeConn serves a single connection synchronously in the calling
@@ -68,3 +69,16 @@ func VerifParseCmd(line string) (cmd string, arg string, err error) { return par
 // VerifSetStartTLSHook installs a function that may adjust the tls.Config the
 // client uses for STARTTLS (the package's existing test hook).
 func VerifSetStartTLSHook(f func(*tls.Config)) { testHookStartTLS = f }
+
+// VerifState dumps the private fields of the client that determine how future
+// calls behave.
+func (c *Client) VerifState() string {
+	exts := make([]string, 0, len(c.ext))
+	for k, v := range c.ext {
+		exts = append(exts, k+"="+v)
+	}
+	sort.Strings(exts)
+	_, isTLS := c.conn.(*tls.Conn)
+	return fmt.Sprintf("greet=%t greetErr=%t hello=%t helloErr=%t name=%q rcpts=%q lmtp=%t tls=%t ext=%v",
+		c.didGreet, c.greetError != nil, c.didHello, c.helloError != nil, c.localName, c.rcpts, c.lmtp, isTLS, exts)
+}
